@@ -191,6 +191,7 @@ func main() {
 	b.WriteString("]\n\nend Yae.Gen\n")
 	writeIfChanged(filepath.Join(dir, "Sql.lean"), b.String())
 
+	writeIfChanged(filepath.Join(dir, "LexPatterns.lean"), lexPatLean(repoRoot()))
 	writeIfChanged(filepath.Join(dir, "Shared.lean"), sharedLean(repoRoot()))
 }
 
